@@ -218,7 +218,10 @@ def helper(chk, impl):
             if freed:
                 n_free += 1
                 wr = [e for e in writes if isinstance(e[1], Ref) and e[1].loc == ('obj', 'T')]
-                okf = len(deallocs) == 1 and len(wr) == 1 and isinstance(wr[0][3], BV) and wr[0][3].is_const() and wr[0][3].value() == 0 and same(I.resub(o.st, wr[0][1].path[1][1]), I.resub(o.st, iv)) and \
+                def zero_val(v):
+                    v = inner(v) if isinstance(v, Struct) else v     # the raw word, or the whole entry assigned at once
+                    return isinstance(v, BV) and v.is_const() and v.value() == 0
+                okf = len(deallocs) == 1 and len(wr) == 1 and zero_val(wr[0][3]) and same(I.resub(o.st, wr[0][1].path[1][1]), I.resub(o.st, iv)) and \
                     after.index(wr[0]) < after.index(deallocs[0]) and after.index(rec[0]) < after.index(wr[0])
                 if okf:
                     fr = inner(deallocs[0][2][1])
